@@ -236,6 +236,44 @@ def _generic_job(j):
         return replay_generic(name, mk, sched, dv, tmp)
 
 
+def check_forked_process(chk):
+    """A spilling sort in a process forked AFTER petl was imported (multiprocessing workers, pre-forking servers): its
+    chunk files are gone once that process has released view and iterators."""
+    import petl as etl
+    import petl.transform.sorts        # make sure the module is imported in THIS process before forking
+    for cache in (True, False):
+        with common.private_tmp() as tmp:
+            pid = os.fork()
+            if pid == 0:
+                code = 0
+                try:
+                    t = [['k', 'v']] + [[i % 5, i] for i in range(40)]
+                    v = etl.sort(t, 'k', buffersize=7, cache=cache, tempdir=tmp)
+                    it = iter(v)
+                    next(it)
+                    next(it)
+                    p2 = list(v)
+                    peak = len(os.listdir(tmp))
+                    del it, v, p2
+                    gc.collect()
+                    left = len(os.listdir(tmp))
+                    code = 0 if (left == 0 and peak > 0) else (10 + min(left, 200) if left else 3)
+                except BaseException:
+                    code = 2
+                finally:
+                    os._exit(code)
+            _pid, status = os.waitpid(pid, 0)
+            code = os.WEXITSTATUS(status) if os.WIFEXITED(status) else 99
+            left_after = len(os.listdir(tmp))
+            chk.count(('forked-process', cache))
+            chk.replayed += 1
+            if code != 0 or left_after:
+                chk.violation({'op': 'sort', 'kind': 'tempfile-fork'},
+                              'external sort (cache=%s) in a forked child process: %s; %d file(s) still there after the child exited'
+                              % (cache, {2: 'the child raised', 3: 'the child never created chunk files'}.get(code, '%d chunk file(s) left after release' % (code - 10) if code >= 10 else 'exit code %d' % code), left_after),
+                              {'kind': 'forked-process', 'cache': cache})
+
+
 def replay_generic(name, mk, sched, dropview_at, tmp):
     from harness.c01 import norm
     solo = [norm(r) for r in mk()]
@@ -488,6 +526,7 @@ def run(tier, seed):
                     chk.violation({'op': name, 'kind': 'tempfile'}, '%s schedule=%r view released before step %d: %s' % (name, sched, dv + 1, msg),
                                   {'kind': 'generic', 'view': name, 'schedule': sched, 'dropview_at': dv})
     check_failing_spill(chk)
+    check_forked_process(chk)
     traces = record_traces(2000 if full else 300, seed) + directed_traces()
     validate_traces(chk, traces, seed)
     chk.exhaustive = False
